@@ -30,7 +30,7 @@ ASSUMPTIONS = [
     "relative, view Jacobian: 4 x the forward-difference truncation bound computed from the family's second derivatives "
     "(+ 1e-6 relative)",
 ]
-REQUIRED_CLASSES = ["lstsq:tall", "lstsq:wide", "lstsq:square", "lstsq:rank-deficient", "lstsq:dropped-by-rcond",
+REQUIRED_CLASSES = ["lstsq:zero-matrix", "lstsq:zero-rows-or-columns", "lstsq:exact-zero-singular-value-without-threshold", "views:set_x/get_x", "lstsq:tall", "lstsq:wide", "lstsq:square", "lstsq:rank-deficient", "lstsq:dropped-by-rcond",
                     "lstsq:dropped-by-cutoff", "lstsq:rcond=0", "lstsq:settings-at-both-places", "step:square", "step:tall", "step:wide", "step:broyden",
                     "views:scalar+rescaled", "views:vector+native", "views:reused-after-change", "views:point-on-a-limit", "step:start-on-a-limit", "scaling"]
 RCONDS = [None, 1e-10, 1e-5, 1e-2, 0.5, 0.0]      # 0.0 = keep every non-zero singular value
@@ -149,6 +149,69 @@ def exec_lstsq(ctx, c):
     if not np.all(np.isfinite(got)) or err > tol:
         return Failure("C16:lstsq-not-truncated-least-squares-solution",
                        dict(rendered, error=err, tolerance=float(tol), got=[float(x) for x in got], expected=[float(x) for x in want]))
+    return None
+
+
+# ------------------------------------------------------------------ (a2) structurally singular matrices
+@st.composite
+def zero_cases(draw):
+    """a well-conditioned block embedded in an m x n matrix whose other rows / columns are EXACTLY zero (also: the zero
+    matrix).  Such matrices have exactly-zero singular values, which no rcond setting may turn into 1/0."""
+    m = draw(st.integers(1, 6))
+    n = draw(st.integers(1, 6))
+    rows = sorted(draw(st.sets(st.integers(0, m - 1), min_size=1, max_size=m)))
+    cols = sorted(draw(st.sets(st.integers(0, n - 1), min_size=1, max_size=n)))
+    if draw(st.integers(0, 4)) == 0:
+        rows, cols = [], []                 # the zero matrix
+    kb = min(len(rows), len(cols))
+    return {"kind": "lstsq0", "m": m, "n": n, "rows": rows, "cols": cols,
+            "sb": [draw(st.sampled_from([0.5, 1.0, 2.0, 5.0])) / (1.5 ** i) for i in range(kb)],
+            "seed": draw(st.integers(0, 2 ** 30)), "rcond": draw(st.sampled_from(["default", 0.0, None, 1e-10, 1e-5])),
+            "where": draw(st.sampled_from(["ctor", "call"]))}
+
+
+def exec_lstsq0(ctx, c):
+    from xdeps.optimize.matrixutils import SVD
+    m, n, rows, cols = c["m"], c["n"], c["rows"], c["cols"]
+    rs = np.random.RandomState(c["seed"])
+    M = np.zeros((m, n))
+    b = rs.uniform(-3, 3, size=m)
+    want = np.zeros(n)
+    kb = len(c["sb"])
+    if kb:
+        r, q = len(rows), len(cols)
+        U, _ = np.linalg.qr(rs.normal(size=(r, r)))
+        V, _ = np.linalg.qr(rs.normal(size=(q, q)))
+        U, V = U[:, :kb], V[:, :kb]
+        sb = np.array(c["sb"])
+        M[np.ix_(rows, cols)] = (U * sb) @ V.T
+        want[cols] = V @ ((U.T @ b[rows]) / sb)
+    rendered = {"shape": [m, n], "nonzero_rows": rows, "nonzero_columns": cols, "block_singular_values": c["sb"],
+                "rcond": c["rcond"], "given_to": c["where"]}
+    cls = ["lstsq", "lstsq:structurally-singular", "lstsq:zero-matrix" if not kb else "lstsq:zero-rows-or-columns",
+           f"lstsq0:rcond={c['rcond']}"]
+    if c["rcond"] in (0.0, None):
+        # without a positive threshold only EXACT zeros are dropped: the case is judged only if the factorization the
+        # library itself uses (numpy's SVD of this very matrix) returns them as exact zeros
+        sv = np.linalg.svd(M, compute_uv=False)
+        if int(np.sum(sv > 0)) != kb:
+            ctx.stats.excluded["structurally singular matrix whose zero singular values are not computed as exact zeros, with rcond 0 / None"] += 1
+            return None
+        cls.append("lstsq:exact-zero-singular-value-without-threshold")
+    ctx.stats.case(rendered, True, cls)
+    try:
+        kw = {} if c["rcond"] == "default" else {"rcond": c["rcond"]}
+        if c["where"] == "ctor" or c["rcond"] is None:
+            got = SVD(M, **kw).lstsq(b)         # (rcond=None at the call means "the constructor's")
+        else:
+            got = SVD(M).lstsq(b, **kw)
+    except Exception as e:
+        return Failure(f"C16:lstsq-raises:{type(e).__name__}", dict(rendered, raised=repr(e)[:200]))
+    got = np.asarray(got, dtype=float)
+    tol = 1e-9 * (np.linalg.norm(want) + np.linalg.norm(b) + 1.0)
+    if got.shape != (n,) or not np.all(np.isfinite(got)) or float(np.linalg.norm(got - want)) > tol:
+        return Failure("C16:lstsq-not-minimum-norm-solution-of-singular-system",
+                       dict(rendered, got=[float(x) for x in np.ravel(got)], expected=[float(x) for x in want]))
     return None
 
 
@@ -310,6 +373,32 @@ def exec_view(ctx, spec):
             else:
                 dnat = np.ones(n)
                 xin = x_native
+            # ---- (c) the public pair set_x / get_x of the view: x -> knobs -> x and knobs -> x -> knobs
+            if all(0.0 < p < 1.0 for p in spec["point"]):
+                classes.append("views:set_x/get_x")
+                try:
+                    view.set_x(xin)
+                    k_after = OF.knob_vector(b)
+                    x_back = np.asarray(view.get_x(), dtype=float)
+                    view.set_x(x_back)
+                    k_again = OF.knob_vector(b)
+                except Exception as e:
+                    fail = Failure(f"C16:set_x-get_x-raises:{type(e).__name__}", dict(rendered, view=tag, raised=repr(e)[:200]))
+                    break
+                span = (lims[:, 1] - lims[:, 0])
+                if np.any(np.abs(k_after - knobs) > 1e-12 * span + 8 * np.spacing(np.abs(knobs))):
+                    fail = Failure("C16:set_x-puts-other-knob-values", dict(rendered, view=tag, x=[float(v) for v in xin],
+                                                                           knobs=[float(v) for v in k_after], expected=[float(v) for v in knobs]))
+                    break
+                sx = np.abs(np.asarray(xin, dtype=float))
+                if np.any(np.abs(x_back - xin) > 1e-12 * (np.abs(dnat) ** -1) * (xhi - xlo) + 1e-12 * (1 + sx)):
+                    fail = Failure("C16:get_x-is-not-inverse-of-set_x", dict(rendered, view=tag, x=[float(v) for v in xin],
+                                                                             back=[float(v) for v in x_back]))
+                    break
+                if np.any(np.abs(k_again - k_after) > 1e-12 * span + 8 * np.spacing(np.abs(knobs))):
+                    fail = Failure("C16:set_x(get_x())-moves-the-knobs", dict(rendered, view=tag, before=[float(v) for v in k_after],
+                                                                              after=[float(v) for v in k_again]))
+                    break
             e0 = errvec(x_native)
             J = jac_native(x_native) * dnat[None, :]
             want_val = float(np.sum(e0 * e0)) if scalar else e0
@@ -421,9 +510,10 @@ def view_reuse(b, spec, rendered, classes):
 
 def run(ctx):
     drive(ctx, lstsq_cases(), lambda c: exec_lstsq(ctx, c), ctx.n(1500, 20000), salt=1, label="C16 lstsq")
+    drive(ctx, zero_cases(), lambda c: exec_lstsq0(ctx, c), ctx.n(300, 4000), salt=4, label="C16 lstsq (structurally singular)")
     drive(ctx, step_cases(), lambda c: exec_step(ctx, c), ctx.n(150, 2000), salt=2, label="C16 step")
     drive(ctx, view_cases(), lambda c: exec_view(ctx, c), ctx.n(150, 2000), salt=3, label="C16 views")
 
 
 def replay(ctx, case):
-    return {"lstsq": exec_lstsq, "step": exec_step, "view": exec_view}[case["kind"]](ctx, case)
+    return {"lstsq": exec_lstsq, "lstsq0": exec_lstsq0, "step": exec_step, "view": exec_view}[case["kind"]](ctx, case)
